@@ -353,6 +353,7 @@ func main() {
 	writeIfChanged(filepath.Join(outDir, "Lifecycle.lean"), genLifecycle(repoRoot))
 	writeIfChanged(filepath.Join(outDir, "BindFacts.lean"), genBindFacts(repoRoot))         // C04 (extract/bindfacts.go): never exits
 	writeIfChanged(filepath.Join(outDir, "ConfigLoad.lean"), genConfigLoad(repoRoot))       // C14 (extract/configload.go): never exits
+	writeIfChanged(filepath.Join(outDir, "ConfigEnv.lean"), genConfigEnv(repoRoot))         // C14 (extract/configenv.go): never exits
 	writeIfChanged(filepath.Join(outDir, "OpenAPIRanges.lean"), genOpenAPIRanges(repoRoot)) // C07 (extract/oaranges.go): never exits
 	// C15 / C17 (extract/compress.go, extract/gates.go, walker extract/mwskel.go): never exit either
 	writeIfChanged(filepath.Join(outDir, "Compress.lean"), genCompress(repoRoot))
